@@ -170,7 +170,11 @@ CLAIMS = {
          "order, input events after its terminal, late timers) and C01_timed_predicates_imply_grammar (every trace accepted by the predicates "
          "that judge the implementation under C02 / C07-C09 has the shape), C01_timed_inside_a_pipeline (any pipeline tree in front of such an "
          "operator, any chain behind it); each run also executes ~400 (6000) pipelines with one operator in front of and one behind a "
-         "scheduler-using operator and compares them with the composition of the chain model, the timed model and the back channel.", "DESIGN.md section 5 C01"),
+         "scheduler-using operator and compares them with the composition of the chain model, the timed model and the back channel. The "
+         "subscriber built from closures is tied to the source by TRANSLATION as well (Props/C01src.v): the three observers of "
+         ".on_error(f).on_complete(g).subscribe(h), parsed from /repo/src on every run (T5) and evaluated in Coq, hand each notification to "
+         "exactly the closure meant for it and call nothing else (C01_source_idiom_call), so that for any call sequence the closures see "
+         "idiom_log of it (C01_source_idiom_run).", "DESIGN.md section 5 C01"),
  "C10": ("Theorems over the stateful lock-level model of SubjectThreads / BehaviorSubject (Ileave.v), any number of threads, any scripts, ANY "
          "schedule at mutex granularity: C10_subject_never_stuck / C10_subject_no_deadlock (in every configuration some unfinished thread can "
          "move), C10_subject_no_panic, C10_subject_callbacks_exclusive, C10_subject_common_order. Theorems over a discipline-level model (threads = programs of lock / unlock / enter-callback / leave-callback actions, any schedule): "
